@@ -380,6 +380,9 @@ pub struct RunRecord {
     pub source_drops_before_end: u32,
     /// tracked heap blocks still live after everything was dropped: (blocks, bytes, sample)
     pub leaked: (usize, usize, Vec<(usize, u32)>),
+    /// tracked heap blocks released with a size other than the one they were allocated with:
+    /// (how many, allocated size, released size of the first)
+    pub layout_mismatch: (usize, usize, usize),
     pub unexpected_panics: Vec<String>,
 }
 
@@ -1390,9 +1393,14 @@ pub fn execute(cfg: &RunCfg, run_no: u32) -> RunRecord {
     let heap = cfg.heap_bytes;
     let mk = |i: u32| Elem::new(i, run_no, seed, heap);
     let total = n + tail;
+    // a quarter of the vectors have spare capacity (capacity != length matters to code that
+    // rebuilds or releases the buffer by hand)
+    let slack = if (seed >> 17) % 4 == 0 { 1 + ((seed >> 19) % 5) as usize } else { 0 };
     let mk_vec = || {
         let _t = alloc::track();
-        (0..total as u32).map(mk).collect::<Vec<Elem>>()
+        let mut v = Vec::with_capacity(total + slack);
+        v.extend((0..total as u32).map(mk));
+        v
     };
     let mk_plain = || {
         (0..total as u32)
@@ -1612,6 +1620,7 @@ pub fn execute(cfg: &RunCfg, run_no: u32) -> RunRecord {
     rec.ledger = elems::ledger_snapshot();
     rec.probe = elems::probe_snapshot();
     rec.leaked = alloc::live();
+    rec.layout_mismatch = alloc::layout_mismatch();
     rec.unexpected_panics = take_panics();
     rec
 }
